@@ -248,10 +248,34 @@ def m_late_parent_event(f, case, viol):
     for i, u in enumerate(main):
         if u[2] == "mkdir" and any(v[2] in ("mkdir", "create", "rename", "rename_dir") and any(q != u[3] and q.startswith(u[3] + "/") for q in _op_paths(v)) for v in main[i + 1:]):
             parents.append(u[3])
+    # second form: a folder P deleted and a NEW folder made at the same path P in the mangled phase (two objects, one path):
+    # with their events held back / permuted the engine ties the peer's folder to the wrong one
+    for i, u in enumerate(main):
+        if u[2] in ("rmtree", "rmdir") and any(v[2] == "mkdir" and v[3] == u[3] for v in main[i + 1:]):
+            parents.append(u[3])
     paths = _diff_paths(viol)
     if not parents or not paths:
         return False
     return all(any(_related(_unconf(p), q) for q in parents) for p in paths)
+
+
+def m_pathless_recreate(f, case, viol):
+    """mechanism (C14): a side whose ids are paths delivers events with the path field dropped; file P is created, synchronised,
+    deleted, and a new file created at P again: the path-less creation event is attached to the discarded entry of the deleted
+    file (same id = same path) and the new file is never uploaded.  Needs 'nopath' enabled, a path-id origin side, and the
+    history create P ... delete P ... create P; the differing path must be P."""
+    rates = case.get("rates") or {}
+    flav = str(case.get("cfg", {}).get("flavour", ""))
+    origin = case.get("origin")
+    if not rates.get("nopath") or origin is None or len(flav) < 2 or flav[origin] != "p":
+        return False
+    ops = [u for u in user_ops(case) if u[1] == origin]
+    cand = set()
+    for i, u in enumerate(ops):
+        if u[2] == "delete" and any(v[2] == "create" and v[3] == u[3] for v in ops[i + 1:]):
+            cand.add(u[3])
+    paths = _diff_paths(viol)
+    return bool(paths) and all(_unconf(p) in cand for p in paths)
 
 
 def m_request_stale_entry(f, case, viol):
@@ -414,7 +438,7 @@ def m_moved_out_race(f, case, viol):
     return _paths_related_to_moves(viol, ok, case)
 
 
-MATCHERS = {"declined_conflict": m_declined_conflict, "mock_path_ci": m_mock_path_ci, "request_stale_entry": m_request_stale_entry, "late_parent_event": m_late_parent_event, "crash_dup_entry": m_crash_dup_entry, "boundary_folder_move": m_boundary_folder_move, "moved_out_race": m_moved_out_race, "crash_rename_over": m_crash_rename_over, "event_exc": m_event_exc, "half_transfer": m_half_transfer, "history": m_history, "rename_race": m_rename_race, "dirdelete_race": m_dirdelete_race}
+MATCHERS = {"pathless_recreate": m_pathless_recreate, "declined_conflict": m_declined_conflict, "mock_path_ci": m_mock_path_ci, "request_stale_entry": m_request_stale_entry, "late_parent_event": m_late_parent_event, "crash_dup_entry": m_crash_dup_entry, "boundary_folder_move": m_boundary_folder_move, "moved_out_race": m_moved_out_race, "crash_rename_over": m_crash_rename_over, "event_exc": m_event_exc, "half_transfer": m_half_transfer, "history": m_history, "rename_race": m_rename_race, "dirdelete_race": m_dirdelete_race}
 
 
 def match_one(f, case, viol):
